@@ -234,11 +234,19 @@ def _map_to_station_ids(
     :param sim: the SimulationState provides h3 resolution and lookup tables
     :return: the price data organized by StationId
     """
-    updated = {}  # refactor using immutables.Map()?
-    for k in this_update.keys():
+    updated: Dict[StationId, immutables.Map[ChargerId, Currency]] = {}
+
+    def _merge(station_id: StationId, prices: immutables.Map[ChargerId, Currency]):
+        # several keys (a StationId, a region) can name the same station: combine their
+        # charger prices instead of letting the last key replace the others
+        previous = updated.get(station_id, immutables.Map())
+        updated[station_id] = DictOps.merge_dicts(previous, prices)
+
+    # sorted, so the result does not depend on the hash order of the keys
+    for k in sorted(this_update.keys()):
         if k in sim.stations:
             # k is a StationId; leave as is
-            updated.update({k: this_update[k]})
+            _merge(k, this_update[k])
         else:
             # k may be a geoid
             try:
@@ -260,8 +268,14 @@ def _map_to_station_ids(
                 )
 
                 # all of these station ids should get entries managers the provided geoid
-                for station_id in station_ids:
-                    updated.update({station_id: this_update[k]})
+                for station_id in sorted(station_ids):
+                    if res > sim.sim_h3_search_resolution:
+                        # a geoid finer than the search cells names only the stations inside
+                        # it, not every station of the enclosing search cell
+                        station = sim.stations.get(station_id)
+                        if station is None or h3.h3_to_parent(station.geoid, res) != k:
+                            continue
+                    _merge(station_id, this_update[k])
 
             except ValueError as e:
                 # todo: handle failure here
